@@ -91,7 +91,7 @@ impl<K: KeyT, V: ValT> World<K, V> {
                                     closure_body(|| {
                                         kk.check("or_insert_with_key");
                                         if kk.kv() != kv {
-                                            ctx::note_error(format!("or_insert_with_key saw key {} for entry({})", kk.kv(), kv));
+                                            ctx::note_expectation(format!("or_insert_with_key saw key {} for entry({})", kk.kv(), kv));
                                         }
                                         let v = V::make(p);
                                         made = Some(v.oid());
@@ -162,10 +162,10 @@ impl<K: KeyT, V: ValT> World<K, V> {
                                     v.check("and_modify");
                                     if let Some(c) = exp {
                                         if v.payload() != c.p {
-                                            ctx::note_error(format!("and_modify saw payload {} expected {}", v.payload(), c.p));
+                                            ctx::note_expectation(format!("and_modify saw payload {} expected {}", v.payload(), c.p));
                                         }
                                     } else {
-                                        ctx::note_error("and_modify closure called on a vacant entry".to_string());
+                                        ctx::note_expectation("and_modify closure called on a vacant entry".to_string());
                                     }
                                     v.set_payload(p);
                                 })
@@ -187,10 +187,10 @@ impl<K: KeyT, V: ValT> World<K, V> {
                                 match exp {
                                     Some(c) => {
                                         if kk.kv() != kv || v.payload() != c.p || (v.oid() != 0 && (v.oid() != c.vid || kk.oid() != c.kid)) {
-                                            ctx::note_error(format!("replace_entry_with saw ({},{}) expected ({},{})", kk.kv(), v.payload(), kv, c.p));
+                                            ctx::note_expectation(format!("replace_entry_with saw ({},{}) expected ({},{})", kk.kv(), v.payload(), kv, c.p));
                                         }
                                     }
-                                    None => ctx::note_error("replace_entry_with closure called on a vacant entry".to_string()),
+                                    None => ctx::note_expectation("replace_entry_with closure called on a vacant entry".to_string()),
                                 }
                                 drop(v);
                                 if some {
@@ -516,7 +516,7 @@ impl<K: KeyT, V: ValT> World<K, V> {
                                     v.check("raw and_modify");
                                     match exp {
                                         Some(c) if v.payload() == c.p && kk.kv() == kv => {}
-                                        _ => ctx::note_error(format!("raw and_modify saw ({},{})", kk.kv(), v.payload())),
+                                        _ => ctx::note_expectation(format!("raw and_modify saw ({},{})", kk.kv(), v.payload())),
                                     }
                                     v.set_payload(p);
                                 })
@@ -537,7 +537,7 @@ impl<K: KeyT, V: ValT> World<K, V> {
                                 v.check("raw replace_entry_with value");
                                 match exp {
                                     Some(c) if kk.kv() == kv && v.payload() == c.p && (v.oid() == 0 || (v.oid() == c.vid && kk.oid() == c.kid)) => {}
-                                    _ => ctx::note_error(format!("raw replace_entry_with saw ({},{})", kk.kv(), v.payload())),
+                                    _ => ctx::note_expectation(format!("raw replace_entry_with saw ({},{})", kk.kv(), v.payload())),
                                 }
                                 drop(v);
                                 if some {
